@@ -603,3 +603,400 @@ Section Alg.
     exists x. auto.
   Qed.
 End Alg.
+
+(* ------------------------------------------------------------------------- *)
+(* every registered component time enters exactly once                        *)
+(* ------------------------------------------------------------------------- *)
+Lemma all_pairs_flat comps blocks :
+  all_pairs comps blocks = flat_map (fun e => map (pair e) (comps e)) (concat blocks).
+Proof.
+  unfold all_pairs, pairs_of. induction blocks as [|b bs IH]; simpl; [reflexivity|].
+  rewrite flat_map_app, IH. reflexivity.
+Qed.
+
+Lemma NoDup_app_intro {A} (l1 l2 : list A) :
+  NoDup l1 -> NoDup l2 -> (forall x, In x l1 -> ~ In x l2) -> NoDup (l1 ++ l2).
+Proof.
+  induction 1 as [|a l1 Ha Hl IH]; simpl; intros H2 Hd; [exact H2|].
+  constructor.
+  - rewrite in_app_iff. intros [?|?]; [contradiction|]. apply (Hd a); auto.
+  - apply IH; [exact H2|]. intros x Hx. apply Hd. right. exact Hx.
+Qed.
+
+Lemma NoDup_map_pair (e : string) (l : list string) : NoDup l -> NoDup (map (pair e) l).
+Proof.
+  induction 1; simpl; constructor; [|assumption].
+  rewrite in_map_iff. intros [y [Hy Hin]]. inversion Hy; subst. contradiction.
+Qed.
+
+Lemma in_pairs (comps : string -> list string) es (e c : string) :
+  In (e, c) (flat_map (fun e => map (pair e) (comps e)) es) <-> In e es /\ In c (comps e).
+Proof.
+  rewrite in_flat_map. split.
+  - intros [e' [He Hin]]. apply in_map_iff in Hin as [c' [Hc Hin]]. inversion Hc; subst. auto.
+  - intros [He Hc]. exists e. split; [exact He|]. apply in_map. exact Hc.
+Qed.
+
+Lemma NoDup_pairs (comps : string -> list string) es :
+  NoDup es -> (forall e, NoDup (comps e)) -> NoDup (flat_map (fun e => map (pair e) (comps e)) es).
+Proof.
+  intros Hes Hc. induction Hes as [|e es He Hes IH]; simpl; [constructor|].
+  apply NoDup_app_intro; [apply NoDup_map_pair, Hc|exact IH|].
+  intros [e' c'] Hin Hin'. apply in_map_iff in Hin as [c [Hc' _]]. inversion Hc'; subst.
+  apply in_pairs in Hin' as [Hin' _]. contradiction.
+Qed.
+
+(* if every Einsum lies in one block and no component is registered twice for an Einsum, then each
+   registered (Einsum, component) time is a leaf of the expression exactly once, and nothing else is *)
+Theorem each_once_of_perm comps blocks x :
+  Permutation (leaves x) (all_pairs comps blocks) ->
+  NoDup (concat blocks) -> (forall e, NoDup (comps e)) ->
+  NoDup (leaves x) /\ forall e c, In (e, c) (leaves x) <-> In e (concat blocks) /\ In c (comps e).
+Proof.
+  intros Hp Hb Hc. rewrite all_pairs_flat in Hp. split.
+  - eapply Permutation_NoDup; [apply Permutation_sym; exact Hp|]. apply NoDup_pairs; assumption.
+  - intros e c. rewrite <- in_pairs. split; apply Permutation_in; [exact Hp|apply Permutation_sym; exact Hp].
+Qed.
+
+(* the general form (registrations counted with multiplicity) *)
+Theorem leaf_count_of_perm comps blocks x (dec : forall p q : leaf, {p = q} + {p <> q}) :
+  Permutation (leaves x) (all_pairs comps blocks) ->
+  forall p, count_occ dec (leaves x) p = count_occ dec (all_pairs comps blocks) p.
+Proof. intros Hp p. apply Permutation_count_occ. exact Hp. Qed.
+
+(* ------------------------------------------------------------------------- *)
+(* instance counts and divisors                                               *)
+(* ------------------------------------------------------------------------- *)
+Lemma lookup_last_app {B} k (l1 l2 : list (string * B)) :
+  lookup_last k (l1 ++ l2) = match lookup_last k l2 with Some r => Some r | None => lookup_last k l1 end.
+Proof.
+  induction l1 as [|[k' v] l1 IH]; simpl; [destruct (lookup_last k l2); reflexivity|].
+  rewrite IH. destruct (lookup_last k l2); [reflexivity|]. reflexivity.
+Qed.
+
+Lemma count_decl_app c l1 l2 : count_decl c (l1 ++ l2) = (count_decl c l1 + count_decl c l2)%nat.
+Proof. induction l1 as [|[k v] l1 IH]; simpl; [reflexivity|]. rewrite IH. lia. Qed.
+
+Lemma count_zero_lookup c (l : list (string * cinfo)) : count_decl c l = 0%nat -> lookup_last c l = None.
+Proof.
+  induction l as [|[k v] l IH]; simpl; [reflexivity|].
+  destruct (String.eqb k c); [discriminate|]. intros H. rewrite IH by exact H. reflexivity.
+Qed.
+
+Lemma lookup_some_count c l (ci : cinfo) : lookup_last c l = Some ci -> (1 <= count_decl c l)%nat.
+Proof.
+  destruct (count_decl c l) eqn:E; [|lia]. rewrite (count_zero_lookup c l E). discriminate.
+Qed.
+
+Lemma lookup_first_split {B} cfg (a : list (string * B)) lv :
+  lookup_first cfg a = Some lv -> exists pre post, a = pre ++ (cfg, lv) :: post.
+Proof.
+  induction a as [|[k v] a IH]; simpl; [discriminate|].
+  destruct (String.eqb_spec k cfg) as [->|N].
+  - intros H. inversion H; subst. exists [], a. reflexivity.
+  - intros H. destruct (IH H) as [pre [post ->]]. exists ((k, v) :: pre), post. reflexivity.
+Qed.
+
+Lemma built_app a1 a2 : built (a1 ++ a2) = built a1 ++ built a2.
+Proof. unfold built. apply flat_map_app. Qed.
+
+(* a component name declared once in the whole architecture: the code's single dictionary gives the
+   instance count (class, bandwidth) of the Einsum's own configuration tree *)
+Theorem instances_unique a cfg c ci :
+  spec_cinfo a cfg c = Some ci -> count_decl c (built a) = 1%nat -> code_cinfo a c = Some ci.
+Proof.
+  unfold spec_cinfo, code_cinfo. destruct (lookup_first cfg a) as [lv|] eqn:El; [|discriminate].
+  intros Hs Hc. destruct (lookup_first_split cfg a lv El) as [pre [post ->]].
+  change (pre ++ (cfg, lv) :: post) with (pre ++ [(cfg, lv)] ++ post) in *.
+  rewrite !built_app in *. rewrite !count_decl_app in Hc.
+  assert (E : built [(cfg, lv)] = built_level lv) by (unfold built; simpl; apply app_nil_r).
+  rewrite E in *. pose proof (lookup_some_count _ _ _ Hs) as H1.
+  rewrite !lookup_last_app.
+  rewrite (count_zero_lookup c (built post)) by lia. rewrite Hs. reflexivity.
+Qed.
+
+Corollary divisor_unique a cfg c :
+  spec_cinfo a cfg c <> None -> count_decl c (built a) = 1%nat -> code_divisor a cfg c = spec_divisor a cfg c.
+Proof.
+  intros Hs Hc. unfold code_divisor, spec_divisor. destruct (spec_cinfo a cfg c) as [ci|] eqn:E; [|congruence].
+  rewrite (instances_unique a cfg c ci E Hc). reflexivity.
+Qed.
+
+(* "divides its operation or bit count by clock frequency (or bandwidth) times the instance count" *)
+Theorem divisor_form a cfg c n cls bw :
+  spec_cinfo a cfg c = Some (n, cls, bw) ->
+  spec_divisor a cfg c = Some (if is_memory cls then bw * n else cfg_freq a cfg * n)%Z.
+Proof. intros H. unfold spec_divisor. rewrite H. reflexivity. Qed.
+
+(* the instance count of a component is the N + 1 of the level NAME[0..N] that declares it *)
+Theorem spec_cinfo_level raw f locals subs d :
+  In d locals -> (forall d', In d' locals -> c_name d' = c_name d -> d' = d) ->
+  (forall s, In s subs -> count_decl (c_name d) (built_level s) = 0%nat) ->
+  lookup_last (c_name d) (built_level (Level raw f locals subs)) =
+  Some (match parse_level raw with Some (_, n) => n | None => 0%Z end, c_class d, c_bw d).
+Proof.
+  intros Hin Huniq Hsubs. simpl. rewrite lookup_last_app.
+  assert (Hs : count_decl (c_name d) (flat_map built_level subs) = 0%nat).
+  { induction subs as [|s subs IH]; simpl; [reflexivity|]. rewrite count_decl_app.
+    rewrite (Hsubs s (or_introl eq_refl)), IH; [reflexivity|]. intros; apply Hsubs; right; assumption. }
+  rewrite (count_zero_lookup _ _ Hs).
+  set (n := match parse_level raw with Some (_, n) => n | None => 0%Z end).
+  induction locals as [|d0 locals IH]; [destruct Hin|]. simpl.
+  match goal with |- context [@lookup_last ?B ?k ?l] => destruct (@lookup_last B k l) as [r|] eqn:El end.
+  - (* found further right: it is d itself *)
+    assert (exists d', In d' locals /\ c_name d' = c_name d /\ r = (n, c_class d', c_bw d')) as [d' [H1 [H2 ->]]].
+    { clear -El. induction locals as [|x locals IH]; simpl in El; [discriminate|].
+      destruct (lookup_last (c_name d) (map _ locals)) as [r'|] eqn:E.
+      - inversion El; subst. destruct (IH eq_refl) as [d' [? [? ?]]]. exists d'. simpl. auto.
+      - destruct (String.eqb_spec (c_name x) (c_name d)); [|discriminate]. inversion El; subst.
+        exists x. simpl. auto. }
+    rewrite (Huniq d' (or_intror H1) H2). reflexivity.
+  - destruct Hin as [->|Hin].
+    + rewrite String.eqb_refl. reflexivity.
+    + exfalso. clear -El Hin. induction locals as [|x locals IH]; [destruct Hin|]. simpl in El.
+      destruct (lookup_last (c_name d) (map _ locals)) eqn:E; [discriminate|].
+      destruct Hin as [->|Hin]; [rewrite String.eqb_refl in El; discriminate|]. apply IH; [exact Hin|reflexivity].
+Qed.
+
+(* the pinned tree keeps ONE component dictionary for all configurations: a name shared by two
+   configurations takes the instance count / bandwidth of the configuration built last (finding F14) *)
+Definition f14_arch : arch :=
+  [("P1", Level "System" 1000 [mkC "Mem" "dram" 512]
+            [Level "PE[0..3]" 0 [mkC "Buf" "buffet" 0; mkC "Mul" "compute" 0] []]);
+   ("P2", Level "System" 7 [mkC "Mem" "dram" 4096]
+            [Level "PE[0..7]" 0 [mkC "Buf" "buffet" 0; mkC "Mul" "compute" 0] []])]%string.
+
+Theorem shared_name_divisor_refuted :
+  exists a cfg c1 c2,
+    spec_divisor a cfg c1 = Some 4000%Z /\ code_divisor a cfg c1 = Some 8000%Z /\
+    spec_divisor a cfg c2 = Some 512%Z /\ code_divisor a cfg c2 = Some 4096%Z.
+Proof. exists f14_arch, "P1"%string, "Mul"%string, "Mem"%string. vm_compute. repeat split. Qed.
+
+(* ------------------------------------------------------------------------- *)
+(* level names                                                                *)
+(* ------------------------------------------------------------------------- *)
+Fixpoint all_s (p : ascii -> bool) (s : string) : bool :=
+  match s with
+  | EmptyString => true
+  | String a s' => p a && all_s p s'
+  end.
+
+Definition alnum_ (c : ascii) : bool := is_alpha_ c || is_digit c.
+Definition cname (s : string) : Prop :=
+  exists a r, s = String a r /\ is_alpha_ a = true /\ all_s alnum_ r = true.
+
+Lemma alpha_not_ws a : is_alpha_ a = true -> is_ws a = false.
+Proof. destruct a as [[] [] [] [] [] [] [] []]; vm_compute; congruence. Qed.
+Lemma digit_not_ws a : is_digit a = true -> is_ws a = false.
+Proof. destruct a as [[] [] [] [] [] [] [] []]; vm_compute; congruence. Qed.
+
+Lemma span_all p x r :
+  all_s p x = true -> match r with String a _ => p a = false | EmptyString => True end ->
+  span p (x ++ r)%string = (x, r).
+Proof.
+  intros Hx Hr. induction x as [|a x IH]; simpl in *.
+  - destruct r as [|b r]; [reflexivity|]. simpl. rewrite Hr. reflexivity.
+  - apply andb_true_iff in Hx as [Ha Hx]. rewrite Ha, (IH Hx). reflexivity.
+Qed.
+
+Lemma skip_ws_nonws a r : is_ws a = false -> skip_ws (String a r) = String a r.
+Proof. intros H. simpl. rewrite H. reflexivity. Qed.
+
+(* NAME[0..N] declares N + 1 instances; NAME declares one *)
+Theorem parse_level_multiple name ds :
+  cname name -> all_s is_digit ds = true -> ds <> EmptyString ->
+  parse_level (name ++ "[0.." ++ ds ++ "]")%string = Some (name, (digits_val ds 0 + 1)%Z).
+Proof.
+  intros [a [r [-> [Ha Hr]]]] Hd Hne.
+  unfold parse_level.
+  change ((String a r ++ "[0.." ++ ds ++ "]")%string) with (String a (r ++ "[0.." ++ ds ++ "]")%string).
+  rewrite (skip_ws_nonws a _ (alpha_not_ws a Ha)). rewrite Ha.
+  change (String a (r ++ "[0.." ++ ds ++ "]")%string) with ((String a r ++ ("[0.." ++ ds ++ "]"))%string).
+  rewrite (span_all (fun c => (is_alpha_ c || is_digit c)%bool) (String a r) ("[0.." ++ ds ++ "]")%string).
+  - change (skip_ws ("[0.." ++ ds ++ "]")%string) with ("[0.." ++ ds ++ "]")%string.
+    change (strip_prefix "[0.." ("[0.." ++ ds ++ "]")%string) with (Some (ds ++ "]")%string).
+    cbv iota beta.
+    destruct ds as [|d ds]; [congruence|]. simpl in Hd. apply andb_true_iff in Hd as [Hd1 Hd2].
+    change ((String d ds ++ "]")%string) with (String d (ds ++ "]")%string).
+    rewrite (skip_ws_nonws d _ (digit_not_ws d Hd1)).
+    change (String d (ds ++ "]")%string) with ((String d ds ++ "]")%string).
+    rewrite (span_all is_digit (String d ds) "]"%string).
+    + reflexivity.
+    + simpl. rewrite Hd1, Hd2. reflexivity.
+    + reflexivity.
+  - simpl. rewrite Ha. exact Hr.
+  - reflexivity.
+Qed.
+
+Theorem parse_level_single name : cname name -> parse_level name = Some (name, 1%Z).
+Proof.
+  intros [a [r [-> [Ha Hr]]]]. unfold parse_level.
+  rewrite (skip_ws_nonws a _ (alpha_not_ws a Ha)). rewrite Ha.
+  replace (String a r) with ((String a r ++ "")%string) at 1.
+  - rewrite (span_all (fun c => (is_alpha_ c || is_digit c)%bool) (String a r) ""%string).
+    + reflexivity.
+    + simpl. rewrite Ha. exact Hr.
+    + exact I.
+  - simpl. f_equal. clear. induction r; simpl; congruence.
+Qed.
+
+(* ------------------------------------------------------------------------- *)
+(* exact rationals are an instance                                            *)
+(* ------------------------------------------------------------------------- *)
+Lemma Qcmax_comm a b : Qcmax a b = Qcmax b a.
+Proof.
+  unfold Qcmax. destruct (Qle_bool a b) eqn:E1, (Qle_bool b a) eqn:E2; try reflexivity.
+  - apply Qle_bool_iff in E1, E2. apply Qc_is_canon. apply Qle_antisym; assumption.
+  - exfalso. assert (~ (a <= b)%Q) by (rewrite <- Qle_bool_iff; congruence).
+    assert (~ (b <= a)%Q) by (rewrite <- Qle_bool_iff; congruence).
+    destruct (Qlt_le_dec a b) as [H1|H1]; [apply Qlt_le_weak in H1|]; contradiction.
+Qed.
+
+Lemma Qle_bool_false a b : Qle_bool a b = false -> (b <= a)%Q.
+Proof.
+  intros E. destruct (Qlt_le_dec a b) as [H|H]; [|exact H].
+  apply Qlt_le_weak in H. apply Qle_bool_iff in H. congruence.
+Qed.
+
+Lemma Qle_bool_false_lt a b : Qle_bool a b = false -> (b < a)%Q.
+Proof.
+  intros E. destruct (Qlt_le_dec b a) as [H|H]; [exact H|]. apply Qle_bool_iff in H. congruence.
+Qed.
+
+Lemma Qcmax_assoc a b c : Qcmax a (Qcmax b c) = Qcmax (Qcmax a b) c.
+Proof.
+  unfold Qcmax.
+  destruct (Qle_bool b c) eqn:Ebc, (Qle_bool a b) eqn:Eab; simpl;
+    try rewrite Ebc; try rewrite Eab; try reflexivity;
+    destruct (Qle_bool a c) eqn:Eac; try reflexivity; exfalso;
+    repeat match goal with
+           | H : Qle_bool _ _ = true |- _ => apply Qle_bool_iff in H
+           | H : Qle_bool _ _ = false |- _ => apply Qle_bool_false_lt in H
+           end.
+  - apply (Qlt_irrefl c). eapply Qlt_le_trans; [exact Eac|]. eapply Qle_trans; eassumption.
+  - apply (Qlt_irrefl a). eapply Qle_lt_trans; [exact Eac|]. eapply Qlt_trans; eassumption.
+Qed.
+
+Lemma Qcplus_0_l' a : (0 + a)%Qc = a.
+Proof. apply Qcplus_0_l. Qed.
+
+(* ------------------------------------------------------------------------- *)
+(* examples: the hypotheses are met by non-trivial objects                    *)
+(* ------------------------------------------------------------------------- *)
+Open Scope string_scope.
+Open Scope list_scope.
+(* the registrations of tests/integration/gamma.yaml as compiled by the real code *)
+Definition gamma_comps (e : string) : list string :=
+  if String.eqb e "T" then ["MainMemory"; "Intersect"]
+  else if String.eqb e "Z" then ["MainMemory"; "HighRadixMerger"; "FPMul"; "FPAdd"] else []%list.
+
+Example gamma_build :
+  build_time gamma_comps [["T"; "Z"]]%string =
+  Some (TMax (TMax (TMax (TMax (TLeaf "Z" "FPAdd") (TLeaf "Z" "FPMul")) (TLeaf "Z" "HighRadixMerger"))
+                   (TLeaf "T" "Intersect"))
+             (TAdd (TLeaf "T" "MainMemory") (TLeaf "Z" "MainMemory")))%string.
+Proof. vm_compute. reflexivity. Qed.
+
+(* a legal rewrite of the same expression (arguments commuted, max nested differently) is accepted *)
+Example gamma_rewrite_accepted :
+  time_okb gamma_comps [["T"; "Z"]]%string
+    (TMax (TAdd (TLeaf "Z" "MainMemory") (TLeaf "T" "MainMemory"))
+          (TMax (TLeaf "T" "Intersect")
+                (TMax (TLeaf "Z" "HighRadixMerger") (TMax (TLeaf "Z" "FPMul") (TLeaf "Z" "FPAdd")))))%string = true.
+Proof. vm_compute. reflexivity. Qed.
+
+(* dropping a registered time, or using it twice, is rejected *)
+Example gamma_dropped_rejected :
+  time_okb gamma_comps [["T"; "Z"]]%string
+    (TMax (TMax (TMax (TLeaf "Z" "FPAdd") (TLeaf "Z" "FPMul")) (TLeaf "Z" "HighRadixMerger"))
+          (TAdd (TLeaf "T" "MainMemory") (TLeaf "Z" "MainMemory")))%string = false.
+Proof. vm_compute. reflexivity. Qed.
+
+Example outerspace_two_blocks :
+  let comps e := if String.eqb e "T0" then ["MainMemory"; "FPMul"]
+                 else if String.eqb e "T1" then ["MainMemory"]
+                 else if String.eqb e "Z" then ["MainMemory"; "SortHW"; "FPAdd"] else []%list in
+  exists x, build_time comps [["T0"]; ["T1"; "Z"]]%string = Some x /\
+            time_okb comps [["T0"]; ["T1"; "Z"]]%string x = true /\
+            NoDup (concat [["T0"]; ["T1"; "Z"]]%string) /\ (forall e, NoDup (comps e)).
+Proof.
+  eexists. split; [vm_compute; reflexivity|]. split; [vm_compute; reflexivity|]. split.
+  - repeat constructor; simpl; intuition discriminate.
+  - intros e. destruct (String.eqb e "T0"); [|destruct (String.eqb e "T1"); [|destruct (String.eqb e "Z")]];
+      repeat constructor; simpl; intuition discriminate.
+Qed.
+
+Example level_names :
+  parse_level "PE[0..127]" = Some ("PE", 128%Z) /\ parse_level "System" = Some ("System", 1%Z) /\
+  parse_level " PE [0.. 7 ] " = Some ("PE", 8%Z) /\ parse_level "PE[0 ..7]" = None /\ parse_level "PE[1..7]" = None.
+Proof. vm_compute. repeat split. Qed.
+
+Example cname_PE : cname "PE".
+Proof. exists "P"%char, "E"%string. repeat split. Qed.
+
+(* ------------------------------------------------------------------------- *)
+(* packaged statements                                                        *)
+(* ------------------------------------------------------------------------- *)
+Definition maxplus {T} (add mx : T -> T -> T) (zero : T) : Prop :=
+  (forall a b, add a b = add b a) /\ (forall a b c, add a (add b c) = add (add a b) c) /\
+  (forall a, add zero a = a) /\
+  (forall a b, mx a b = mx b a) /\ (forall a b c, mx a (mx b c) = mx (mx a b) c).
+
+Lemma maxplus_Qc : maxplus Qcplus Qcmax 0%Qc.
+Proof.
+  repeat split; [apply Qcplus_comm|apply Qcplus_assoc|apply Qcplus_0_l|apply Qcmax_comm|apply Qcmax_assoc].
+Qed.
+
+Lemma maxplus_Z : maxplus Z.add Z.max 0%Z.
+Proof. repeat split; intros; lia. Qed.
+
+Lemma maxplus_unit : maxplus (fun _ _ : unit => tt) (fun _ _ => tt) tt.
+Proof. repeat split; intros; try reflexivity. destruct a; reflexivity. Qed.
+
+Theorem build_time_rollup {T} (add mx : T -> T -> T) (zero : T) :
+  maxplus add mx zero ->
+  forall rho comps blocks, blocks <> [] ->
+  exists x, build_time comps blocks = Some x /\
+            eval add mx zero rho x = rollup add mx zero rho comps blocks.
+Proof.
+  intros [H1 [H2 [H3 [H4 H5]]]] rho comps blocks Hne.
+  destruct (build_time_sem add mx zero H1 H2 H3 H4 H5 rho comps blocks Hne) as [x [Hx [He _]]]. eauto.
+Qed.
+
+Theorem build_time_leaves comps blocks x :
+  build_time comps blocks = Some x -> Permutation (leaves x) (all_pairs comps blocks).
+Proof.
+  intros Hx. destruct blocks as [|b bs]; [discriminate|].
+  destruct maxplus_unit as [H1 [H2 [H3 [H4 H5]]]].
+  destruct (build_time_sem _ _ tt H1 H2 H3 H4 H5 (fun _ _ => tt) comps (b :: bs)) as [y [Hy [_ Hp]]]; [discriminate|].
+  congruence.
+Qed.
+
+Theorem build_time_each_once comps blocks x :
+  build_time comps blocks = Some x -> NoDup (concat blocks) -> (forall e, NoDup (comps e)) ->
+  NoDup (leaves x) /\ forall e c, In (e, c) (leaves x) <-> In e (concat blocks) /\ In c (comps e).
+Proof. intros Hx. apply each_once_of_perm. apply build_time_leaves. exact Hx. Qed.
+
+Theorem validator_sound {T} (add mx : T -> T -> T) (zero : T) :
+  maxplus add mx zero ->
+  forall rho comps blocks x, time_okb comps blocks x = true ->
+  eval add mx zero rho x = rollup add mx zero rho comps blocks.
+Proof.
+  intros [H1 [H2 [H3 [H4 H5]]]] rho comps blocks x H.
+  exact (proj1 (time_okb_sound add mx zero H1 H2 H3 H4 H5 rho comps blocks x H)).
+Qed.
+
+Theorem validator_each_once comps blocks x :
+  time_okb comps blocks x = true -> NoDup (concat blocks) -> (forall e, NoDup (comps e)) ->
+  NoDup (leaves x) /\ forall e c, In (e, c) (leaves x) <-> In e (concat blocks) /\ In c (comps e).
+Proof.
+  intros H. apply each_once_of_perm. destruct maxplus_unit as [H1 [H2 [H3 [H4 H5]]]].
+  exact (proj2 (time_okb_sound _ _ tt H1 H2 H3 H4 H5 (fun _ _ => tt) comps blocks x H)).
+Qed.
+
+(* the code's own expression passes the validator's conclusion in particular for exact rationals *)
+Corollary build_time_rollup_Qc rho comps blocks :
+  blocks <> [] ->
+  exists x, build_time comps blocks = Some x /\
+            eval Qcplus Qcmax 0%Qc rho x = rollup Qcplus Qcmax 0%Qc rho comps blocks.
+Proof. apply build_time_rollup. exact maxplus_Qc. Qed.
